@@ -1951,6 +1951,89 @@ impl JsObject {
         }
     }
 
+    /// Own property keys in specification order, the exotic ones included: the elements and
+    /// `length` of an array, the characters and `length` of a String object
+    pub fn own_property_keys_with_exotic(&self) -> Vec<PropertyKey> {
+        let exotic_length = match &self.exotic {
+            ExoticObject::Array { elements } => Some(elements.len()),
+            ExoticObject::StringObj(s) => Some(s.as_str().chars().count()),
+            _ => None,
+        };
+        let mut keys: Vec<PropertyKey> = Vec::new();
+        if let Some(len) = exotic_length {
+            keys.extend((0..len as u32).map(PropertyKey::Index));
+        }
+        let covered = exotic_length.unwrap_or(0);
+        let mut rest: Vec<PropertyKey> = Vec::new();
+        for key in self.properties.keys() {
+            match key {
+                PropertyKey::Index(i) if (*i as usize) < covered => {}
+                PropertyKey::Index(_) => keys.push(key.clone()),
+                PropertyKey::String(s)
+                    if exotic_length.is_some() && s.as_str() == "length" => {}
+                _ => rest.push(key.clone()),
+            }
+        }
+        if exotic_length.is_some() {
+            keys.push(PropertyKey::String(JsString::from("length")));
+        }
+        keys.extend(rest);
+        keys
+    }
+
+    /// The own property `key` as a descriptor, the exotic ones synthesised (see
+    /// `own_property_keys_with_exotic`)
+    pub fn get_own_property_with_exotic(&self, key: &PropertyKey) -> Option<Property> {
+        let is_length = matches!(key, PropertyKey::String(s) if s.as_str() == "length");
+        match (&self.exotic, key) {
+            (ExoticObject::Array { elements }, PropertyKey::Index(i)) => {
+                if let Some(value) = elements.get(*i as usize) {
+                    return Some(Property::with_attributes(
+                        value.clone(),
+                        !self.frozen,
+                        true,
+                        !(self.frozen || self.sealed),
+                    ));
+                }
+            }
+            (ExoticObject::Array { elements }, _) if is_length => {
+                return Some(Property::with_attributes(
+                    JsValue::Number(elements.len() as f64),
+                    !self.frozen,
+                    false,
+                    false,
+                ));
+            }
+            (ExoticObject::StringObj(s), PropertyKey::Index(i)) => {
+                if let Some(c) = s.as_str().chars().nth(*i as usize) {
+                    return Some(Property::with_attributes(
+                        JsValue::String(JsString::from(c.to_string())),
+                        false,
+                        true,
+                        false,
+                    ));
+                }
+            }
+            (ExoticObject::StringObj(s), _) if is_length => {
+                return Some(Property::with_attributes(
+                    JsValue::Number(s.as_str().chars().count() as f64),
+                    false,
+                    false,
+                    false,
+                ));
+            }
+            _ => {}
+        }
+        self.properties.get(key).cloned()
+    }
+
+    /// Store engine bookkeeping (`__super__`, `__super_target__`) on an object: a property
+    /// that enumeration, Object.keys and JSON never show
+    pub fn set_internal_slot(&mut self, key: PropertyKey, value: JsValue) {
+        self.properties
+            .insert(key, Property::with_attributes(value, true, false, true));
+    }
+
     /// Define a property with attributes
     pub fn define_property(&mut self, key: PropertyKey, prop: Property) {
         self.properties.insert(key, prop);
